@@ -76,9 +76,7 @@ def convert(quantity: Quantity, other_unit: Unit) -> Quantity:
     """Converts the given quantity into another unit, if possible"""
     if quantity.unit.dimension != other_unit.dimension:
         raise ConversionNotFound(
-            "No conversion from "
-            f"{quantity.unit} ({quantity.unit.dimension}) to "
-            f"{other_unit} ({other_unit.dimension})"
+            f"No conversion from {_describe(quantity.unit)} to {_describe(other_unit)}"
         )
 
     this = quantity.unprefixed()
@@ -94,6 +92,15 @@ def convert(quantity: Quantity, other_unit: Unit) -> Quantity:
             magnitude = _add(magnitude, offset)
 
     return Quantity(magnitude, other_unit)
+
+
+def _describe(unit: Unit) -> str:
+    """A unit and its dimension, for an error message"""
+    try:
+        return f"{unit} ({unit.dimension})"
+    except ArithmeticError:
+        # a prefix whose value is beyond the range of a float has no plain-text form
+        return f"{unit!r}"
 
 
 Exponent = int
